@@ -63,6 +63,9 @@ def _bellman_ford_rust(
         path = []
         current = target
         while current != -1:
+            if len(path) > n_nodes:
+                # Rounding closed a cycle of predecessors (a cycle whose float weight is not positive)
+                return Result(None, float("-inf"), result["iterations"], 0, Status.UNBOUNDED)
             path.append(current)
             current = result["predecessors"][current]
         path.reverse()
